@@ -564,6 +564,23 @@ class FileStorage(Storage):
         return tempstore.create()
 
 
+class RamLock(object):
+    """Lock object handed out by :class:`RamStorage`. Wraps a thread lock but,
+    like the file-based locks in :mod:`whoosh.util.filelock`, ``acquire()``
+    does not block by default and returns whether the lock was obtained, so
+    ``try_for(lock.acquire, timeout, delay)`` times out instead of hanging.
+    """
+
+    def __init__(self):
+        self._lock = Lock()
+
+    def acquire(self, blocking=False):
+        return self._lock.acquire(blocking)
+
+    def release(self):
+        self._lock.release()
+
+
 class RamStorage(Storage):
     """Storage object that keeps the index in memory.
     """
@@ -628,7 +645,7 @@ class RamStorage(Storage):
 
     def lock(self, name):
         if name not in self.locks:
-            self.locks[name] = Lock()
+            self.locks[name] = RamLock()
         return self.locks[name]
 
     def temp_storage(self, name=None):
